@@ -24,10 +24,13 @@ def bounds(tier):
 
 
 def cases(tier, seed):
+    groups = {}
     for spec in MC.schemes(tier, with_registry=False):
         if spec[0] == "identity":
             continue
-        yield f"C15|producer|{spec[0]}|{spec[1]}", {"kind": "producer", "spec": spec, "tier": tier}
+        groups.setdefault((spec[0], spec[2].get("order", spec[2].get("bits_per_symbol"))), []).append(spec)
+    for (scheme, order), specs in groups.items():
+        yield f"C15|producer|{scheme}|order={order}", {"kind": "producers", "specs": specs, "tier": tier}
     yield "C15|consumer|synthetic", {"kind": "synthetic", "tier": tier}
     yield "C15|consumer|stateful-bfs", {"kind": "stateful", "tier": tier}
     for dec in ("bp", "minsum", "wagner", "sc", "polar-bp", "soft-rm"):
@@ -35,11 +38,11 @@ def cases(tier, seed):
 
 
 def component_of(p):
-    return p["spec"][0] if p["kind"] == "producer" else p.get("dec", "thresholders")
+    return p["specs"][0][0] if p["kind"] == "producers" else p.get("dec", "thresholders")
 
 
 def execute(p, res):
-    {"producer": producer_case, "synthetic": synthetic_case, "stateful": stateful_case, "decoder": decoder_case}[p["kind"]](p, res)
+    {"producers": producers_case, "synthetic": synthetic_case, "stateful": stateful_case, "decoder": decoder_case}[p["kind"]](p, res)
 
 
 # ----------------------------------------------------------------------------- consumers
@@ -129,6 +132,12 @@ def feed_consumers(llr_rows, bit_rows, min_mag, res, comp_prefix, cfg):
         if float((pr - torch.sigmoid(-llr.reshape(-1))).abs().max()) > 1e-6:
             res.viol("LLRThresholder(soft)", cfg, "p1=sigmoid(-llr)", f"soft output {pr.tolist()} for LLRs {llr.tolist()}")
             break
+
+
+def producers_case(p, res):
+    # all option combinations of one family in ONE process, catalogue order then (fresh instances) reverse order
+    for spec in list(p["specs"]) + (list(reversed(p["specs"])) if len(p["specs"]) > 1 else []):
+        producer_case({"spec": spec, "tier": p["tier"]}, res)
 
 
 def producer_case(p, res):
@@ -280,6 +289,7 @@ def decoder_case(p, res):
     msgs = [list(m) for m in product([0, 1], repeat=k)]
     cws = enc(torch.tensor(msgs, dtype=torch.float32))
     d = mk()
+    flip = False
     for spec in MC.schemes(p["tier"], with_registry=False):
         scheme, cfgs, prm = spec
         if scheme == "identity":
@@ -291,11 +301,16 @@ def decoder_case(p, res):
         mod, dem = MC.build(spec)
         for s2 in SIG2:
             cfg = f"{scheme},{cfgs},sigma2={s2}"
-            x = cws
+            # the SAME decoder object serves every producer: alternate the order of the codewords from call to call so that anything the decoder
+            # keeps from the previous call belongs to a different word
+            flip = not flip
+            order = list(range(len(msgs) - 1, -1, -1)) if flip else list(range(len(msgs)))
+            x = cws[order]
+            msgs_o = [msgs[i] for i in order]
             if kind == "differential":
-                x = torch.cat([torch.zeros(len(msgs), b), cws], dim=1)
+                x = torch.cat([torch.zeros(len(msgs), b), x], dim=1)
             if kind == "offset":
-                x = torch.cat([cws, torch.zeros(len(msgs), 2)], dim=1)
+                x = torch.cat([x, torch.zeros(len(msgs), 2)], dim=1)
             try:
                 mod.reset_state()
                 dem.reset_state()
@@ -309,7 +324,7 @@ def decoder_case(p, res):
                 res.viol(dec, cfg, "raises", f"{type(e).__name__}: {str(e)[:200]}")
                 continue
             res.ev(len(msgs), nontrivial=len(msgs) - 1, transitions=3)
-            if tuple(out.shape) != (len(msgs), k) or out.to(torch.float32).tolist() != [[float(t) for t in m] for m in msgs]:
-                bad = next((i for i in range(len(msgs)) if tuple(out.shape) != (len(msgs), k) or out[i].to(torch.float32).tolist() != [float(t) for t in msgs[i]]), 0)
-                res.viol(dec, cfg, "polarity", f"codeword of message {msgs[bad]} sent with {scheme}, soft-demodulated and decoded -> {out[bad].tolist() if out.dim() == 2 else tuple(out.shape)}", {"msg": msgs[bad]})
+            if tuple(out.shape) != (len(msgs), k) or out.to(torch.float32).tolist() != [[float(t) for t in m] for m in msgs_o]:
+                bad = next((i for i in range(len(msgs)) if tuple(out.shape) != (len(msgs), k) or out[i].to(torch.float32).tolist() != [float(t) for t in msgs_o[i]]), 0)
+                res.viol(dec, cfg, "polarity", f"codeword of message {msgs_o[bad]} sent with {scheme}, soft-demodulated and decoded -> {out[bad].tolist() if out.dim() == 2 else tuple(out.shape)}", {"msg": msgs[bad]})
     res.sample({"decoder": dec, "n": n, "k": k})
